@@ -210,4 +210,292 @@ theorem allocate_track (s : St) (hw : WF s) (hp : Placed s) (r r' : Req) (h : (s
       · subst e; exact hnorm
     · rw [zoneMove_nodes]; rfl
 
+/-! ### public `Allocate` -/
+
+theorem zoneIn_withNew (s : St) (r' : Req) (hnone : s.req? r'.id = none) (id : String) :
+    zoneIn (withNew s r') id = zoneIn s id := by
+  unfold zoneIn St.req? withNew
+  simp only [List.find?_append]
+  cases hf : s.reqs.find? (·.id == id) with
+  | some x => simp
+  | none =>
+    simp only [Option.none_or, List.find?_cons, List.find?_nil]
+    by_cases e : (r'.id == id) = true
+    · simp [e]
+    · simp [e]
+
+theorem Allocate_ok_shape (s : St) (r : Req) (res : Result) (h : (s.Allocate r).2 = .ok res) :
+    ∃ r', (s.allocate r).2 = .ok r' ∧ (s.Allocate r).1.reqs = (s.allocate r).1.reqs ∧
+      (s.Allocate r).1.nodes = (s.allocate r).1.nodes := by
+  unfold St.Allocate at h ⊢
+  cases ha : s.allocate r with
+  | mk s' res' =>
+    cases res' with
+    | error e => simp [ha] at h
+    | ok r' =>
+      refine ⟨r', rfl, ?_, ?_⟩
+      · simp only [St.cleanupUnusedZones]
+        exact commitJournal_reqs _ _
+      · simp only [St.cleanupUnusedZones, St.commitJournal]
+        split <;> rfl
+
+/-- **C07 for `Allocate`**, relative to the state before: every request that existed keeps its
+nodes (its zone can only grow), requests of Reservation priority keep exactly their zone, and
+every request - the new one included - sits in a zone with normal memory. -/
+theorem Allocate_placement (s : St) (hw : WF s) (hp : Placed s) (r : Req) (res : Result)
+    (h : (s.Allocate r).2 = .ok res) :
+    (∀ q ∈ (s.Allocate r).1.reqs, msub (zoneIn s q.id) q.zone = true) ∧
+    (∀ q ∈ (s.Allocate r).1.reqs, 32766 < q.prio → q.id ≠ r.id → q.zone = zoneIn s q.id) ∧
+    Placed (s.Allocate r).1 := by
+  obtain ⟨r', ha, hreqs, hnodes⟩ := Allocate_ok_shape s r res h
+  obtain ⟨hnone, _, hid, _, _, _⟩ := allocate_ok_eq s r r' ha
+  obtain ⟨_, ht⟩ := allocate_track s hw hp r r' ha
+  refine ⟨?_, ?_, ?_⟩
+  · intro q hq
+    rw [hreqs] at hq
+    rw [← zoneIn_withNew s r' hnone]
+    exact ht.mono q hq
+  · intro q hq hpr hne
+    rw [hreqs] at hq
+    rw [← zoneIn_withNew s r' hnone]
+    exact ht.resv q hq hpr (by rw [hid]; exact hne)
+  · intro q hq
+    rw [hreqs] at hq
+    rw [normalMask_of_nodes _ _ hnodes]
+    exact ht.normal q hq
+
+/-! ### public `Realloc` -/
+
+def addTypes (id : String) (t : Nat) (q : Req) : Req := if q.id == id then { q with types := q.types ||| t } else q
+
+theorem addTypes_id (id : String) (t : Nat) (q : Req) : (addTypes id t q).id = q.id := by unfold addTypes; split <;> rfl
+theorem addTypes_zone (id : String) (t : Nat) (q : Req) : (addTypes id t q).zone = q.zone := by unfold addTypes; split <;> rfl
+theorem addTypes_prio (id : String) (t : Nat) (q : Req) : (addTypes id t q).prio = q.prio := by unfold addTypes; split <;> rfl
+
+/-- the shape of a successful `Realloc`: a no-op, or one journaled move of the request to
+`old zone ∪ requested ∪ expansion` followed by overcommit resolution. -/
+theorem Realloc_ok_shape (s : St) (id : String) (nodes : Mask) (types : Nat) (res : Result)
+    (h : (s.Realloc id nodes types).2 = .ok res) :
+    (s.Realloc id nodes types).1 = s ∨
+    ∃ (r : Req) (target : Mask) (t : Nat), s.req? id = some r ∧ msub r.zone target = true ∧
+      (s.Realloc id nodes types).1.reqs =
+        (((s.startJournal.zoneMove target id).handleOvercommit target).1).reqs.map (addTypes id t) ∧
+      (s.Realloc id nodes types).1.nodes = (((s.startJournal.zoneMove target id).handleOvercommit target).1).nodes := by
+  unfold St.Realloc at h ⊢
+  cases hr : s.req? id with
+  | none => simp [hr] at h
+  | some r =>
+    simp only [hr] at h ⊢
+    cases hv : s.validateRealloc r nodes types with
+    | error e' => simp [hv] at h
+    | ok v =>
+      obtain ⟨n1, t1, fl⟩ := v
+      cases fl with
+      | true => left; rfl
+      | false =>
+        right
+        simp only [hv] at h ⊢
+        cases hx : s.startJournal.expand (r.zone ||| n1) t1 with
+        | mk newNodes newTypes =>
+          simp only [hx] at h ⊢
+          by_cases hz : (newNodes == 0) = true
+          · simp [hz] at h
+          · simp only [hz, Bool.false_eq_true, if_false] at h ⊢
+            cases ho : (s.startJournal.zoneMove (r.zone ||| n1 ||| newNodes) id).handleOvercommit (r.zone ||| n1 ||| newNodes) with
+            | mk s3 oe =>
+              simp only [ho] at h ⊢
+              cases oe with
+              | some e' => simp at h
+              | none =>
+                simp only []
+                refine ⟨r, r.zone ||| n1 ||| newNodes, newTypes, rfl, ?_, ?_, ?_⟩
+                · exact msub_or_right newNodes (msub_or_self r.zone n1)
+                · simp only [St.cleanupUnusedZones]
+                  rw [commitJournal_reqs, ho]
+                  rfl
+                · simp only [St.cleanupUnusedZones, St.commitJournal]
+                  rw [ho]
+                  split <;> rfl
+
+/-- **C07 for `Realloc`**: no request loses nodes - the re-allocated one included ("re-allocation
+never removes nodes") -, Reservation-priority requests other than the re-allocated one keep
+exactly their zone, every request stays in a zone with normal memory. -/
+theorem Realloc_placement (s : St) (hw : WF s) (hp : Placed s) (id : String) (nodes : Mask) (types : Nat) (res : Result)
+    (h : (s.Realloc id nodes types).2 = .ok res) :
+    (∀ q ∈ (s.Realloc id nodes types).1.reqs, msub (zoneIn s q.id) q.zone = true) ∧
+    (∀ q ∈ (s.Realloc id nodes types).1.reqs, 32766 < q.prio → q.id ≠ id → q.zone = zoneIn s q.id) ∧
+    Placed (s.Realloc id nodes types).1 := by
+  have hnd : IdsNodup s := hw.ids
+  rcases Realloc_ok_shape s id nodes types res h with e | ⟨r, target, t, hr, hsub, hreqs, hnodes⟩
+  · rw [e]
+    refine ⟨?_, ?_, hp⟩
+    · intro q hq; rw [zoneIn_of_mem s hnd q hq]; exact msub_refl _
+    · intro q hq _ _; exact (zoneIn_of_mem s hnd q hq).symm
+  · have hrm : r ∈ s.reqs := List.mem_of_find?_eq_some hr
+    have hrid : r.id = id := by have := List.find?_some hr; simpa using this
+    subst hrid
+    have hb0 : IdsNodup s.startJournal := hnd
+    -- the state after the first move is tracked
+    have hcases : ∀ q' ∈ (s.startJournal.zoneMove target r.id).reqs,
+        (q' ∈ s.reqs ∧ q'.id ≠ r.id) ∨ q' = { r with zone := target } := by
+      intro q' hq'
+      exact zoneMove_reqs_mem s.startJournal hb0 r hrm target q' hq'
+    have hnm : (s.startJournal.zoneMove target r.id).normalMask = s.normalMask :=
+      normalMask_of_nodes _ _ (by rw [zoneMove_nodes]; rfl)
+    have ht0 : Track s r.id (s.startJournal.zoneMove target r.id) := by
+      refine ⟨?_, ?_, ?_, ?_⟩
+      · intro q' hq'
+        rcases hcases q' hq' with ⟨hq, _⟩ | e
+        · rw [zoneIn_of_mem s hnd q' hq]; exact msub_refl _
+        · subst e
+          show msub (zoneIn s r.id) target = true
+          rw [zoneIn_of_mem s hnd r hrm]; exact hsub
+      · intro q' hq' _ hne
+        rcases hcases q' hq' with ⟨hq, _⟩ | e
+        · exact (zoneIn_of_mem s hnd q' hq).symm
+        · subst e; exact absurd rfl hne
+      · intro q' hq'
+        rw [hnm]
+        rcases hcases q' hq' with ⟨hq, _⟩ | e
+        · exact hp q' hq
+        · subst e; exact and_ne_zero_of_msub hsub (hp r hrm)
+      · rw [zoneMove_nodes]; rfl
+    have hnd1 : IdsNodup (s.startJournal.zoneMove target r.id) := by
+      unfold IdsNodup; rw [zoneMove_ids]; exact hnd
+    obtain ⟨_, ht⟩ := handleOvercommit_track s r.id _ target hnd1 ht0
+    refine ⟨?_, ?_, ?_⟩
+    · intro q hq
+      rw [hreqs] at hq
+      obtain ⟨q0, hq0, e⟩ := List.mem_map.1 hq
+      rw [← e, addTypes_id, addTypes_zone]
+      exact ht.mono q0 hq0
+    · intro q hq hpr hne
+      rw [hreqs] at hq
+      obtain ⟨q0, hq0, e⟩ := List.mem_map.1 hq
+      rw [← e, addTypes_id, addTypes_zone]
+      rw [← e, addTypes_prio] at hpr
+      rw [← e, addTypes_id] at hne
+      exact ht.resv q0 hq0 hpr hne
+    · intro q hq
+      rw [hreqs] at hq
+      obtain ⟨q0, hq0, e⟩ := List.mem_map.1 hq
+      rw [← e, addTypes_zone, normalMask_of_nodes _ _ hnodes]
+      exact ht.normal q0 hq0
+
+/-! ### the node list is static -/
+
+theorem allocate_nodes (s : St) (hw : WF s) (r : Req) : (s.allocate r).1.nodes = s.nodes := by
+  unfold St.allocate
+  cases hv : s.validateRequest r with
+  | error e => simp
+  | ok t1 =>
+    simp only []
+    cases hf : s.findInitialZone { r with types := t1 } with
+    | error e => simp
+    | ok z1 =>
+      simp only []
+      cases hn : s.ensureNormalMemory { r with types := t1, zone := z1 } with
+      | error e => simp
+      | ok zt =>
+        obtain ⟨z2, t2⟩ := zt
+        simp only []
+        have hnone := validateRequest_spec s r t1 hv
+        have hzn := ensureNormalMemory_zone s _ z2 t2 hn
+        have hz : z2 ≠ 0 := and_ne_zero_left hzn
+        let r3 : Req := { r with types := t2, zone := z2 }
+        have hnone3 : s.req? r3.id = none := hnone
+        have hgood := allocate_body_good s hw r3 hnone3 z2 hz
+        cases hh : (({ s.startJournal with reqs := s.startJournal.reqs ++ [{ r3 with zone := 0 }] } : St).zoneAssign z2 r3.id).handleOvercommit z2 with
+        | mk s2 oe =>
+          rw [hh] at hgood
+          cases oe with
+          | none => simp only []; exact hgood.nodes
+          | some e =>
+            simp only []
+            have := revert_restores_drop (withNew s r3) s2 hgood (withNew_ids_nodup s hw r3 hnone3) r3.id
+            exact this.2.2.2.2.1
+
+theorem Allocate_nodes (s : St) (hw : WF s) (r : Req) : (s.Allocate r).1.nodes = s.nodes := by
+  have := allocate_nodes s hw r
+  unfold St.Allocate
+  cases ha : s.allocate r with
+  | mk s' res =>
+    rw [ha] at this
+    cases res with
+    | error e => exact this
+    | ok r' =>
+      simp only [St.cleanupUnusedZones, St.commitJournal]
+      split <;> exact this
+
+theorem Release_nodes (s : St) (id : String) : (s.Release id).1.nodes = s.nodes := by
+  unfold St.Release
+  split
+  · rfl
+  · simp only []
+    split
+    · rfl
+    · simp only [St.cleanupUnusedZones]
+      exact zoneRemove_nodes _ _ _
+
+theorem Realloc_nodes (s : St) (hw : WF s) (id : String) (nodes : Mask) (types : Nat) :
+    (s.Realloc id nodes types).1.nodes = s.nodes := by
+  unfold St.Realloc
+  cases hr : s.req? id with
+  | none => rfl
+  | some r =>
+    simp only []
+    cases hv : s.validateRealloc r nodes types with
+    | error e' => rfl
+    | ok v =>
+      obtain ⟨n1, t1, fl⟩ := v
+      cases fl with
+      | true => rfl
+      | false =>
+        simp only []
+        have hg0 : Good s s.startJournal := good_start s hw.journal hw.ids
+        cases hx : s.startJournal.expand (r.zone ||| n1) t1 with
+        | mk newNodes newTypes =>
+          simp only []
+          by_cases hz : (newNodes == 0) = true
+          · simp only [hz, if_true]
+            exact (revert_restores s _ hg0 hw.ids).2.2.2.2
+          · simp only [hz, Bool.false_eq_true, if_false]
+            have hne : r.zone ||| n1 ||| newNodes ≠ 0 := by
+              intro hh
+              have := (Nat.or_eq_zero_iff.1 hh).2
+              simp [this] at hz
+            have hg1 := zoneMove_good s _ hg0 (r.zone ||| n1 ||| newNodes) hne id
+            have hg2 := handleOvercommit_good s _ hg1 (r.zone ||| n1 ||| newNodes)
+            cases ho : (s.startJournal.zoneMove (r.zone ||| n1 ||| newNodes) id).handleOvercommit (r.zone ||| n1 ||| newNodes) with
+            | mk s3 oe =>
+              rw [ho] at hg2
+              cases oe with
+              | some e' =>
+                simp only []
+                exact (revert_restores s s3 hg2 hw.ids).2.2.2.2
+              | none =>
+                simp only [St.cleanupUnusedZones, St.commitJournal]
+                split <;> exact hg2.nodes
+
+theorem GetOffer_nodes (s : St) (hw : WF s) (r : Req) : (s.GetOffer r).1.nodes = s.nodes := by
+  have hn := allocate_nodes s hw r
+  have hs := allocate_spec s hw r
+  unfold St.GetOffer
+  cases ha : s.allocate r with
+  | mk s' res =>
+    rw [ha] at hn hs
+    cases res with
+    | error e => exact hn
+    | ok r' =>
+      obtain ⟨hg, hnone, _⟩ := hs.2 r' rfl
+      have := revert_restores_drop (withNew s r') s' hg (withNew_ids_nodup s hw r' hnone) r'.id
+      simp only []
+      cases hrv : s'.revertJournal (some r'.id) with
+      | mk s'' rest =>
+        obtain ⟨ups, oe⟩ := rest
+        rw [hrv] at this
+        cases oe with
+        | some e => simp only [St.cleanupUnusedZones]; exact this.2.2.2.2.1
+        | none => simp only [St.cleanupUnusedZones]; exact this.2.2.2.2.1
+
 end Nri.LibMem
